@@ -316,6 +316,20 @@ def run(chk):
                     ok = aroot is not None and proot is not None and (aroot == ("idx", proot) or (aroot[0] == "item" and aroot == proot))
                     if not ok:
                         chk.add(Finding("R10-queue", "R10-queue::%s::operand::%s" % (fid, m.group(1).split("::")[-1]), "%s: the element queued for deletion and the element whose %s is tested are not the same element (queued: %s, tested: %s): a group/function that is still referenced, or not empty, can be deleted" % (fid, "name is looked up in the used-set" if "contains" in m.group(1) else "emptiness", proot, aroot), b.where(t["ln"])))
+        # both tests are *required*: the condition under which an element is queued implies "not in the used-set" and "is empty"
+        # (an `||` between them, or a negated test, keeps both calls in the control dependences but no longer implies them)
+        from . import guards
+        for e, tests in conds:
+            F = guards.reach_formula(b, Sf, e[6])
+            iv = guards.implied_values(F) if F is not True else {}
+            if iv is None:
+                continue
+            for k, vals in sorted(iv.items()):
+                subj = k[1]
+                if re.search(r"contains\(", subj) and "used" in subj and vals != {False}:
+                    chk.add(Finding("R10-queue", "R10-queue::%s::implies::contains" % fid, "%s: queueing an element for deletion does not imply that its name is absent from the used-set (condition allows %s)" % (fid, sorted(vals)), b.where(e[4])))
+                if re.search(r"is_(group|function)_empty\(", subj) and vals != {True}:
+                    chk.add(Finding("R10-queue", "R10-queue::%s::implies::empty" % fid, "%s: queueing an element for deletion does not imply that it is empty (condition allows %s)" % (fid, sorted(vals)), b.where(e[4])))
         for e, tests in conds:
             if not want <= tests:
                 chk.add(Finding("R10-queue", "R10-queue::%s::%s" % (fid, ",".join(sorted(want - tests))), "%s queues an element for deletion without testing %s: the protection by the used-set / the emptiness test applies only at one of the two queueing sites" % (fid, sorted(want - tests)), b.where(e[4])))
